@@ -335,34 +335,39 @@ class CompProp(props.BaseProp):
 
 C10 = props.register(CompProp())
 C10.manifest = {
-    "text": "Unbounded Coq theorems (all graph states, generic name type, axiom-free) about the faithful model of "
-            "query.rs breadth_first_search and components/*.rs. (1) breadth_first_search(x) lists x first, no node twice, and "
-            "exactly the nodes reachable from x along the adjacency it reads (loop invariant; sound AND complete), and it "
-            "returns - the model's fuel |V|+2 is never exhausted and no unwrap fails - from every node of every state whose "
-            "adjacency query is total and closed (decided by an executable test). (2) connected_components and "
-            "weakly_connected_components ARE the partition of the node list into reachability classes (non-empty, disjoint, "
-            "each node once, same set iff connected) for every state whose adjacency is symmetric and closed (an executable "
-            "test, proved to imply the hypothesis); number_of_connected_components is the length, node_connected_component(x) "
-            "the class of x, NodeNotFound for an absent name, WrongMethod on the other kind. (3) "
-            "strongly_connected_components - the iterative preorder/low-link loop - is FULLY correct for EVERY neighbour "
-            "iteration order: the emitted sets are non-empty, no node occurs twice, every node is in one of them, and every "
-            "emitted set is exactly one class of mutual reachability along the successor relation (29-clause stack / "
-            "low-link invariant: soundness and maximality); so the result IS the partition into strong components whenever "
-            "successors are nodes of the graph (executable test). (4) bfs_equal_size_partitions(k): for every k >= 1 it "
-            "RETURNS on every state whose index adjacency is well formed (executable test): both loops finish within the "
-            "model's fuel, part k is never indexed (progress / counting argument); and every returning run has exactly k "
-            "parts, every node index in exactly one part, no part longer than n/k+1. (5) a VERIFIED "
-            "CHECKER: check_components g rel comps = true implies that comps is the partition of the node list by "
-            "reachability over the stored EDGE LIST (ignoring direction / both directions), proved against the inductive "
-            "definition of reachability - evaluated in Coq on the model's connected, weak and strong components of every "
-            "generated graph. The model is tied to the code on every run: all component sets, counts, per-node components "
-            "(every node + an absent name), BFS from every node, bfs_equal_size_partitions for k=1..n+2 are compared, and a "
-            "Python oracle re-checks the partition / reachability / size statements directly on the implementation's output.",
-    "note": "Total correctness: every function is also proved to RETURN (no unwrap fails, the model's explicit fuel is "
-            "never exhausted) on every graph state of the right kind that passes the executable coherence tests, which are "
-            "evaluated on every generated case. The theorems speak about reachability along the adjacency index each function reads (neighbour query, "
-            "successors/predecessors name maps); that these agree with the edge list is checked per case (coherence tests + "
-            "the edge-list checker on the model's output under two neighbour orders), its unbounded proof belongs to C02/C03. "
+    "text": "Unbounded Coq theorems (generic name type, axiom-free) about the faithful model of query.rs "
+            "breadth_first_search and components/*.rs, END TO END against the EDGE LIST: for EVERY coherent graph state "
+            "(the invariant WF of all twelve fields, proved for every state reachable by any history of mutations and hence "
+            "for every graph built by new_from_nodes_and_edges) - with NO per-case test in the hypotheses - "
+            "(1) breadth_first_search(x) from any node RETURNS, lists x first, no node twice, and exactly the nodes reachable "
+            "from x along the stored edges of get_all_edges (against them too on an undirected graph); from an absent name "
+            "the unwrap fails (C10_bfs_wf / C10_bfs_reachable). (2) connected_components (undirected) and "
+            "weakly_connected_components (directed) RETURN and ARE the partition of the node list into the classes of "
+            "connectedness over the edge list ignoring direction (non-empty, disjoint, each node once, same set iff "
+            "connected); number_of_connected_components is its length, node_connected_component(x) the class of x, "
+            "NodeNotFound for an absent name, WrongMethod on the other kind (C10_connected_wf/_reachable, C10_weak_wf/"
+            "_reachable, C10_count_wf, C10_node_component_wf). (3) strongly_connected_components - the iterative preorder/"
+            "low-link loop, 29-clause stack / low-link invariant - RETURNS and IS the partition into the classes of mutual "
+            "reachability along stored edges, for EVERY neighbour iteration order that permutes each successor set "
+            "(C10_scc_wf/_reachable; the order oracle is the only hypothesis left, and it is about HashSet iteration, not "
+            "about the graph; for the two orders the Run module evaluates - insertion order and its reverse - none is left: "
+            "C10_scc_run_orders; and the classes do not depend on the order: C10_scc_order_independent, via "
+            "C10_partition_unique). (4) bfs_equal_size_partitions(k) RETURNS for every k >= 1 (C10_equal_size_total_wf); every "
+            "returning run has exactly k parts, every node index in exactly one part, no part longer than n/k+1. "
+            "The bridge (Proofs/CompWF.v, C10_tests_hold): the former per-case coherence tests / hypotheses - adjacency "
+            "query total, closed and symmetric (step_total_b, step_ok_b), predecessors = inverse successors and inside the "
+            "node list (wstep_ok_b), successors are nodes, index adjacency well formed (vec_ok_b) - are now THEOREMS "
+            "(consequences of WF), and the relation each loop follows (neighbour query, successors/predecessors name maps) "
+            "is proved EQUAL to the edge-list relation. The older theorems (loop theorems under explicit hypotheses, for "
+            "states that need not be coherent; the VERIFIED CHECKER check_components) are kept. The model is tied to the code "
+            "on every run: all component sets, counts, per-node components (every node + an absent name), BFS from every "
+            "node, bfs_equal_size_partitions for k=1..n+2 are compared, and a Python oracle re-checks the partition / "
+            "reachability / size statements directly on the implementation's output.",
+    "note": "Total correctness is part of the end-to-end theorems (exists cs, f g = Ok cs /\\ ...): no unwrap fails and the "
+            "model's explicit fuel is never exhausted on any coherent state of the right kind. The executable coherence "
+            "tests and the edge-list checker are STILL evaluated on every generated case (flags of Run/RunComp.v): they no "
+            "longer carry the theorems, they tie the model's state to the code's. Not covered by a theorem: that the Rust "
+            "HashSet iteration is a permutation (taken as the meaning of ord). "
             "Trusted: Coq kernel + vm_compute; harness/printers/diff. Axioms: none (every pinned theorem is Closed under the "
             "global context). Repaired defect: F18 (fix commit 562ac6a).",
     "technique": "Coq proof (loop invariants incl. the full Tarjan-style SCC invariant, verified partition checker) + "
